@@ -53,6 +53,31 @@ def generate(rng, tier):
         opts = [ropt(rng) for _ in range(rng.range(0, 5))]
         g["decode-with-options"].append("DEC " + s + ins + " " + " ".join(opts))
         g["render-with-options"].append("DREN 0 0 32 32 " + s + ins + " " + " ".join(opts))
+    # a full replacement by the all-transparent palette (the zero value of [64]color.RGBA), alone, before and after overrides
+    zero = ",".join("%d:00000000" % i for i in range(64))
+    g["zero-palette"] = []
+    for _ in range(200 if tier == "quick" else 4000):
+        n = rng.choice([1, 3, 64])
+        pal = "%02x" % ((n - 1) | 0xc0) + "".join(G.rpremul(rng) for _ in range(n))
+        s = G.MAGIC + "02" + G.natural_bytes(1 + len(pal) // 2) + "02" + pal
+        ins = "%02x%02x" % (0x80, 0x80 + rng.below(4)) + "c0" + "8080" + "00" + "9090" + "e1" + "c1" + "8080" + "00" + "7070" + "e1"
+        for opts in (["OP:" + zero], ["OI:%d:%s" % (rng.below(4), G.rpremul(rng)), "OP:" + zero],
+                     ["OP:" + zero, "OI:%d:%s" % (rng.below(4), G.rpremul(rng))], ["OP:" + G.rpalette(rng), "OP:" + zero], ["OP:-"]):
+            g["zero-palette"].append("DEC " + s + ins + " " + " ".join(opts))
+            g["zero-palette"].append("DREN 0 0 16 16 " + s + ins + " " + " ".join(opts))
+    # one Renderer used for two graphics with the same palette: the second starts from the palette again
+    g["same-palette-reuse"] = []
+    for _ in range(300 if tier == "quick" else 6000):
+        pal = ",".join("%d:%s" % (i, G.rpremul(rng)) for i in sorted(set([0, 1, 63, rng.below(64)])))
+        vb = R.viewbox(rng)
+        a = ["R"] + vb + [pal]
+        for i in (0, 1, 63):
+            a += ["CS", str(i), "CR", "0", "0", "#" + G.rpremul(rng)]
+        a += R.path(rng, verbs=["L"], n=2, adj=0)
+        b = ["R"] + (vb if rng.below(2) else R.viewbox(rng)) + [pal]
+        for adj in (0, 1, rng.below(7)):
+            b += R.path(rng, verbs=["L", "l"], n=2, adj=adj)
+        g["same-palette-reuse"].append("REUSE 0 0 24 24 " + " ".join(a) + " | " + " ".join(b))
     for i in (-1, 64, 65, 1000):
         g["bad-index"].append("DEC " + G.MAGIC + "00 OI:%d:112233ff" % i)
         g["bad-index"].append("DEC " + G.MAGIC + "00 OI:0:112233ff OI:%d:112233ff" % i)
@@ -68,7 +93,11 @@ def nontrivial(case, out):
 
 
 def always_check(case, io):
-    if "INPUT-MODIFIED" in io or "OPTION-PALETTE-MODIFIED" in io:
+    if case.startswith("REUSE"):
+        a, _, b = io.partition(" || ")
+        if a != b:
+            return True, "a Renderer reused with the same palette paints differently from a fresh one"
+    if "INPUT-MODIFIED" in io or "OPTION-PALETTE-MODIFIED" in io or "OPTIONS-SLICE-MODIFIED" in io:
         return True, io[:100]
     return False, ""
 
